@@ -91,6 +91,8 @@ def reify_edges(g: Graph, model: Model) -> Graph:
                        :ARG2 7))
     """
     vars = g.variables()
+    # a new variable must not capture a constant that is spelled like it
+    vars.update(tgt for _, _, tgt in g.triples)
     if model is None:
         model = Model()
     new_epidata = dict(g.epidata)
@@ -190,6 +192,8 @@ def reify_attributes(g: Graph) -> Graph:
            :mod (_ / 7))
     """
     variables = g.variables()
+    # a new variable must not capture a constant that is spelled like it
+    used = variables.union(tgt for _, _, tgt in g.triples)
     new_epidata = dict(g.epidata)
     new_triples: List[BasicTriple] = []
     i = 2
@@ -198,10 +202,10 @@ def reify_attributes(g: Graph) -> Graph:
         if role != CONCEPT_ROLE and target not in variables:
             # get unique var for new node
             var = '_'
-            while var in variables:
+            while var in used:
                 var = f'_{i}'
                 i += 1
-            variables.add(var)
+            used.add(var)
             role_triple = (source, role, var)
             node_triple = (var, CONCEPT_ROLE, target)
             new_triples.extend((role_triple, node_triple))
